@@ -4,7 +4,7 @@
 // each connection uses.
 //
 //   e2e <cfg> <op> <op> ...
-//   cfg := mode=<p|a>,rfc=<0|1>,type=<I|A>,tls=<0|1>,resume=<0|1>,verify=<peer|none>,ver=<12|13>,reqreuse=<0|1>,prop=Cxx
+//   cfg := mode=<p|a>,rfc=<0|1>,type=<I|A>,tls=<0|1>,resume=<0|1>,verify=<peer|none>,ver=<12|13>,reqreuse=<0|1>[,vcb=<0|1>],prop=Cxx
 //   op  := as in h_client; group items additionally: T (start TLS on the control connection after these replies),
 //          B (with T: present a certificate of an unknown CA), G (send garbage instead of a ServerHello), X (close).
 #include "common.hpp"
@@ -153,7 +153,7 @@ std::string run(const std::vector<std::string> & tok)
     reset_scenario();
     { std::lock_guard<std::mutex> l(g_ssl_mu); g_client_ssls.clear(); g_ctxs.clear(); g_ssl_count = 0; g_ssl_ord.clear(); }
     ftp::transfer_mode mode = ftp::transfer_mode::passive; ftp::transfer_type type = ftp::transfer_type::binary; bool rfc = true;
-    bool tls = false, resume = false, verify = true, reqreuse = false, v6 = false; int ver = 13;
+    bool tls = false, resume = false, verify = true, reqreuse = false, v6 = false, vcb = false; int ver = 13;
     for (const std::string & kv : split(tok[1], ','))
     {
         if (kv == "mode=a") mode = ftp::transfer_mode::active;
@@ -166,6 +166,7 @@ std::string run(const std::vector<std::string> & tok)
         else if (kv == "verify=none") verify = false; else if (kv == "verify=peer") verify = true;
         else if (kv == "ver=12") ver = 12; else if (kv == "ver=13") ver = 13;
         else if (kv == "reqreuse=1") reqreuse = true; else if (kv == "reqreuse=0") reqreuse = false;
+        else if (kv == "vcb=1") vcb = true; else if (kv == "vcb=0") vcb = false;
         else if (kv.rfind("prop=", 0) == 0) {}
         else return "bad-op";
     }
@@ -180,6 +181,8 @@ std::string run(const std::vector<std::string> & tok)
             ctx = ftp::ssl::create_context(ver == 12 ? ftp::ssl::context::tlsv12_client : ftp::ssl::context::tlsv13_client, resume);
             ctx->add_certificate_authority(boost::asio::buffer(g_good.ca_pem));
             ctx->set_verify_mode(verify ? ftp::ssl::verify_peer : ftp::ssl::verify_none);
+            // an application-supplied verify callback (asio keeps it in the SSL_CTX's app-data slot) that accepts what OpenSSL accepted
+            if (vcb) ctx->set_verify_callback([](bool preverified, boost::asio::ssl::verify_context &) { return preverified; });
         }
         ftp::client cl(mode, type, std::move(ctx), rfc);
         auto obs = std::make_shared<rec_observer>(0);
